@@ -1,10 +1,104 @@
 """Contracts for lib/Crypto/Protocol/KDF.py (C12): HKDF, PBKDF1, PBKDF2, SP800_108_Counter, scrypt, bcrypt.
-Spec functions: spec/kdf.py (RFC 5869, RFC 8018, SP 800-108r1, RFC 7914), HMAC / PRF / hash / ROMix / EksBlowfish uninterpreted."""
-from vf.pyvc.contracts import Contract, ClassContract
+Spec functions: spec/kdf.py (RFC 5869, RFC 8018, SP 800-108r1, RFC 7914), HMAC / PRF / hash / ROMix / EksBlowfish uninterpreted.
+(_S2V is served by the SIV area; _bcrypt_encode/_bcrypt_decode are string formatting outside PYVC's subset: bounded/kdfs.py.)"""
+import z3
+
+from vf.pyvc.contracts import Contract, ClassContract, apply_contract
+from vf.pyvc import interp as _interp
+from vf.pyvc.interp import BuiltinV, exc
+from vf.pyvc.values import (BYTES, INT, HObj, Ref, ModuleV, FuncV, Unsupported, is_byteslike, is_intlike, mk_bytes, mk_int, zbytes, zint)
 from .base import base_registry
 
 K = 'Crypto.Protocol.KDF.'
 HASHMOD = 'obj:native.HashMod'
+PRFOBJ = 'obj:native.PRF'
+
+# ---------------------------------------------------------------------------------------------- xor on byte strings
+
+BYTES_XOR = z3.Function('bytes_xor', BYTES, BYTES, BYTES)
+
+
+def _decided_len(E, st, zs):
+    """the length of zs when it is fixed syntactically (a constant-length term, or a conjunct Length(zs) == k of the path
+    condition), else None: deterministic, no solver call"""
+    n = z3.simplify(z3.Length(zs))
+    if z3.is_int_value(n):
+        return n.as_long()
+    # a conjunct `Length(zs) == k` of the path condition (deterministic: no solver call)
+    ln = z3.Length(zs)
+    todo = list(st.pc)
+    while todo:
+        c = todo.pop()
+        if z3.is_and(c):
+            todo.extend(c.children())
+        elif z3.is_eq(c):
+            l, r = c.arg(0), c.arg(1)
+            if l.eq(ln) and z3.is_int_value(r):
+                return r.as_long()
+            if r.eq(ln) and z3.is_int_value(l):
+                return l.as_long()
+    return None
+
+
+def xor_value(E, st, a, b):
+    """bytewise exclusive or of two equally long strings.  One symbol for every length; when the path condition fixes the
+    (equal) length to at most 64 the symbol is DEFINED byte by byte with bit-vector xor (exact), otherwise only its length is known"""
+    za, zb = zbytes(a), zbytes(b)
+    t = BYTES_XOR(za, zb)
+    st.fact(z3.Implies(z3.Length(za) == z3.Length(zb), z3.Length(t) == z3.Length(za)))
+    na = _decided_len(E, st, za)
+    if na is not None and na <= 64 and (_decided_len(E, st, zb) == na or E.implied(st, z3.Length(zb) == na)):
+        if na == 0:
+            st.fact(t == z3.Empty(BYTES))
+        else:
+            units = [z3.Unit(za[i] ^ zb[i]) for i in range(na)]
+            st.fact(t == (units[0] if na == 1 else z3.Concat(*units)))
+    return mk_bytes(t)
+
+
+def sf_bytes_xor(E, st, args, kw):
+    a, b = args
+    return [('val', st, xor_value(E, st, a, b))]
+
+
+_interp.SPEC_BUILTINS.setdefault('bytes_xor', BuiltinV('spec.bytes_xor', sf_bytes_xor))
+
+
+def _junction(is_and):
+    def sf(E, st, args, kw):
+        """conj(a, b, ...) / disj(a, b, ...): n-ary `and` / `or` of truth values WITHOUT short-circuit path splitting (all
+        arguments are evaluated; use only with arguments whose evaluation cannot raise)"""
+        ts = [E.truth(a, st) for a in args]
+        if any(t is (not is_and) for t in ts):
+            return [('val', st, not is_and)]
+        zs = [t for t in ts if not isinstance(t, bool)]
+        if not zs:
+            return [('val', st, is_and)]
+        from vf.pyvc.values import mk_bool
+        return [('val', st, mk_bool((z3.And if is_and else z3.Or)(zs) if len(zs) > 1 else zs[0]))]
+    return sf
+
+
+_interp.SPEC_BUILTINS.setdefault('conj', BuiltinV('spec.conj', _junction(True)))
+_interp.SPEC_BUILTINS.setdefault('disj', BuiltinV('spec.disj', _junction(False)))
+
+
+def m_strxor(E, st, args, kwargs):
+    """Crypto.Util.strxor.strxor (src/strxor.c): ValueError iff the lengths differ, else the bytewise xor.
+    ASSUMED (bounded: bounded/accel.py strxor against a Python loop); HPKE does not use output=."""
+    E.registry.used.add('Crypto.Util.strxor.strxor')
+    if len(args) != 2 or kwargs:
+        raise Unsupported('strxor with output=')
+    a, b = args
+    if not is_byteslike(a) or not is_byteslike(b):
+        raise Unsupported('strxor of non-bytes values')
+    outs = []
+    bad, ok = E.split(st, z3.Length(zbytes(a)) != z3.Length(zbytes(b)))
+    if bad is not None:
+        outs.append(('raise', bad, exc(ValueError, 'Only byte strings of equal length can be xored')))
+    if ok is not None:
+        outs.append(('val', ok, xor_value(E, ok, a, b)))
+    return outs
 
 
 def add_hash_natives(reg):
@@ -33,7 +127,8 @@ def add_hash_natives(reg):
                      assumed=note))
     reg.add(Contract('native.HMAC._pbkdf2_hmac_assist', params={'self': 'obj:native.HMAC', 'first_digest': 'bytes', 'iterations': 'int'},
                      requires=['iterations >= 1', 'len(first_digest) == spec.kdf.hlen(self.g_alg)', 'self.g_data == b""'], modifies=[],
-                     returns='spec.kdf.pbkdf2_X(0, self.g_alg, self.g_key, first_digest, iterations)', options={'exact': True},
+                     returns='spec.kdf.pbkdf2_X(0, self.g_alg, self.g_key, first_digest, iterations)', result='bytes',
+                     ensures={'len': 'len(result) == len(first_digest)'},       # the native code fills a buffer of that size
                      assumed='native <hash>_pbkdf2_hmac_assist (src/hash_SHA2_template.c ...): U_1 ^ ... ^ U_c from U_1 under the key of the '
                              'HMAC object (bounded: bounded/kdfs.py PBKDF2 fast path against hashlib.pbkdf2_hmac); iterations <= 0 trips an assert'))
     return reg
@@ -63,10 +158,167 @@ def add_hkdf(reg, proof=False):
     return reg
 
 
-def registry():
+def add_prf_natives(reg):
+    """caller-supplied pseudorandom function, hash objects (PBKDF1), functools.reduce, long_to_bytes"""
+    reg.add(ClassContract('native.PRF', fields={'g_kind': 'int', 'g_id': 'int', 'g_len': 'int'},
+                          valid=['self.g_len >= 1', 'self.g_kind == 0 ==> self.g_len == spec.kdf.hlen(self.g_id)'], abstract=True,
+                          doc='a callable prf(p, s): the function spec.kdf.prf(g_kind, g_id, ., .), outputs of g_len bytes'))
+    reg.add(Contract('native.PRF.__call__', params={'self': PRFOBJ, 'p': 'bytes', 's': 'bytes'}, modifies=[], result='bytes',
+                     returns='spec.kdf.prf(self.g_kind, self.g_id, p, s)', ensures={'len': 'len(result) == self.g_len'},
+                     assumed='unchecked: the caller-supplied pseudorandom function is a deterministic total function of (p, s) whose outputs '
+                             'have one fixed length hLen >= 1 (RFC 8018 5.2: "hLen denotes the length in octets of the pseudorandom '
+                             'function output"); it is an assumption on the caller\'s argument, not on the library'))
+    # hash objects as used by PBKDF1: <module>.new(data) / <object>.new(data), .digest(), .digest_size
+    why_hash = ('Crypto.Hash.<X>.new(data).digest() == the hash function X of data, digest_size its output length (C03 contracts of the hash '
+                'wrappers; bounded: bounded/hashes.py against hashlib)')
+    reg.add(ClassContract('native.Hash', fields={'g_alg': 'int', 'g_data': 'bytes', 'digest_size': 'int'},
+                          valid=['self.digest_size == spec.kdf.hlen(self.g_alg)'], abstract=True))
+    for q, alg in (('native.HashMod.new', 'self.g_alg'), ('native.Hash.new', 'self.g_alg')):
+        reg.add(Contract(q, params={'self': 'any', 'data': 'bytes'}, result='obj:native.Hash', modifies=[],
+                         ensures={'alg': 'result.g_alg == %s' % alg, 'data': 'result.g_data == data'}, assumed=why_hash))
+    reg.add(Contract('Crypto.Hash.SHA1.new', params={'data': 'bytes'}, result='obj:native.Hash', modifies=[],
+                     ensures={'alg': 'result.g_alg == 160', 'data': 'result.g_data == data'}, assumed=why_hash))
+    reg.add(Contract('native.Hash.digest', params={'self': 'obj:native.Hash'}, modifies=[],
+                     returns='spec.kdf.H(self.g_alg, self.g_data)', options={'exact': True}, assumed=why_hash))
+
+    def m_reduce(E, st, args, kwargs):
+        """functools.reduce(function, iterable) over an iterable of concrete length (left fold), exact"""
+        if kwargs or len(args) != 2:
+            raise Unsupported('reduce with an initial value')
+        f, items = args[0], E.iter_concrete(args[1], st)
+        if not items:
+            return [('raise', st, exc(TypeError, 'reduce() of empty iterable with no initial value'))]
+        outs, cur = [], [(st, items[0])]
+        for x in items[1:]:
+            nxt = []
+            for s0, acc in cur:
+                for o in E.call(f, [acc, x], {}, s0):
+                    if o[0] == 'raise':
+                        outs.append(o)
+                    else:
+                        nxt.append((o[1], o[2]))
+            cur = nxt
+        return outs + [('val', s0, acc) for s0, acc in cur]
+    reg.overrides['functools.reduce'] = BuiltinV('functools.reduce', m_reduce)
+    reg.models['Crypto.Util.strxor.strxor'] = m_strxor
+    N = 'Crypto.Util.number.'
+    reg.add(Contract(N + 'long_to_bytes', params={'n': 'int', 'blocksize': 'int'},
+                     raises={'ValueError': ('iff', 'n < 0 or blocksize < 0')}, result='bytes',
+                     ensures={'value': 'be(result) == n',
+                              'blocks': 'blocksize > 0 ==> (len(result) % blocksize == 0 and len(result) >= 1)',
+                              'one_block': '(blocksize > 0 and n < 256 ** blocksize) ==> result == i2osp(n, blocksize)'},
+                     pure=True, assumed='bounded: bounded/bigint.py number.long_to_bytes against int.to_bytes (minimal length, front-padded to a multiple of blocksize)'))
+    return reg
+
+
+def _prf_terms(prf, hm):
+    """(kind, fid, hLen) of the PRF that PBKDF2 uses, as clause text over the expressions for its prf / hmac_hash_module"""
+    kind = '(%s.g_kind if %s is not None else 0)' % (prf, prf)
+    fid = '(%s.g_id if %s is not None else (%s.g_alg if %s is not None else 160))' % (prf, prf, hm, hm)
+    hl = '(%s.g_len if %s is not None else (%s.digest_size if %s is not None else 20))' % (prf, prf, hm, hm)
+    return kind, fid, hl
+
+
+def add_kdfs(reg, pbkdf2=None, num_keys=1, count=None):
+    """pbkdf2: 'fast' | 'generic' | None -- the two verified parts of PBKDF2's input space (see below);
+    num_keys: the instantiated number of keys of HKDF / SP800_108_Counter (their result shape depends on it)"""
+    h = 'hashmod.digest_size'
+    # ---------------------------------------------------------------- HKDF (RFC 5869)
+    salt_e, ctx_e = '(salt if salt else b"")', '(context if context is not None else b"")'
+    stream = 'spec.kdf.hkdf(hashmod.g_alg, master, %s, %s, key_len * %d)' % (salt_e, ctx_e, num_keys)
+    if num_keys == 1:
+        ens = {'value': 'result == ' + stream, 'len': 'len(result) == key_len'}
+    else:
+        # "multiple-key outputs are consecutive slices of the single-key stream"
+        ens = {'count': 'len(result) == %d' % num_keys}
+        for i in range(num_keys):
+            ens['key%d' % i] = 'result[%d] == %s[%d * key_len:%d * key_len]' % (i, stream, i, i + 1)
+    reg.add(Contract(K + 'HKDF', params={'master': 'bytes', 'key_len': 'pos', 'salt': 'bytes|none', 'hashmod': HASHMOD,
+                                         'num_keys': ('const', num_keys), 'context': 'bytes|none'},
+                     raises={'ValueError': ('iff', 'key_len * num_keys > 255 * %s' % h)}, modifies=[], ensures=ens,
+                     opaque=['spec.kdf.hkdf_expand', 'spec.kdf.hkdf_extract']))
+    # ---------------------------------------------------------------- PBKDF1 (RFC 8018 5.1)
+    alg = '(hashAlgo.g_alg if hashAlgo is not None else 160)'
+    hl1 = 'spec.kdf.hlen(%s)' % alg
+    reg.add(Contract(K + 'PBKDF1', params={'password': 'bytes', 'salt': 'bytes', 'dkLen': 'nat', 'count': 'pos', 'hashAlgo': HASHMOD + '|none'},
+                     # step 1: "If dkLen > 16 for MD2 and MD5, or dkLen > 20 for SHA-1, output 'derived key too long' and stop"; salt: eight octets
+                     raises={'TypeError': ('iff', 'dkLen > %s' % hl1), 'ValueError': ('iff', 'dkLen <= %s and len(salt) != 8' % hl1)},
+                     modifies=[],
+                     ensures={'value': 'result == spec.kdf.pbkdf1(%s, password, salt, count, dkLen)' % alg, 'len': 'len(result) == dkLen'},
+                     loops={0: {'types': {'pHash': 'obj:native.Hash'}, 'index': 'k',
+                                'invariant': ['valid(pHash)', 'pHash.g_alg == %s' % alg.replace('hashAlgo', 'old(hashAlgo)'),
+                                              'spec.kdf.H(pHash.g_alg, pHash.g_data) == spec.kdf.pbkdf1_T(pHash.g_alg, password, salt, k + 1)']}}))
+    # ---------------------------------------------------------------- PBKDF2 (RFC 8018 5.2)
+    # Verified in two parts that together cover every input:
+    #   'fast'    prf is None and the hash module (default SHA-1) offers _pbkdf2_hmac_assist: any iteration count;
+    #             plus the refusal of prf together with hmac_hash_module
+    #   'generic' a caller's prf, or a hash module without the assist: the inner `reduce(strxor, (link(s) for j in range(count)))`
+    #             is a fold over a generator of symbolic length, outside the subset => instantiated for count = 1, 2, 3 only
+    kind, fid, hl = _prf_terms('prf', 'hmac_hash_module')
+    okind, ofid, ohl = _prf_terms('old(prf)', 'old(hmac_hash_module)')
+    both = 'prf is not None and hmac_hash_module is not None'
+    assist = '(hmac_hash_module is None or hasattr(hmac_hash_module, "_pbkdf2_hmac_assist"))'
+    req = {None: [], 'fast': ['(%s) or (prf is None and %s)' % (both, assist)], 'generic': ['not (%s)' % both, 'not (prf is None and %s)' % assist]}[pbkdf2]
+
+    def inv(kind_, fid_, hl_):
+        # generic part, instantiated count: the ground instances U_1..U_c, X_1..X_c of the defining equations for the block just
+        # computed (block index i - 1), named so that the nested unfolding (limited to depth 3) reaches all of them
+        u1 = 'spec.kdf.prf(%s, %s, password, salt + i2osp(i - 1, 4))' % (kind_, fid_)
+        hints = []
+        for j in range(1, (count or 0) + 1):
+            for f in ('pbkdf2_U', 'pbkdf2_X'):
+                t = 'spec.kdf.%s(%s, %s, password, %s, %d)' % (f, kind_, fid_, u1, j)
+                hints.append('%s == %s' % (t, t))
+        return hints + ['1 <= i', 'i <= 2 ** 32', 'key == spec.kdf.pbkdf2_blocks(%s, %s, password, salt, count, i - 1)' % (kind_, fid_),
+                'len(key) == (i - 1) * %s' % hl_, 'i >= 2 ==> len(key) - %s < dkLen' % hl_,
+                '(2 ** 32 - i) * %s >= 0' % hl_]         # (product form of i <= 2**32: keeps the bound on len(key) linear in the monomials)
+    reg.add(Contract(K + 'PBKDF2', params={'password': 'bytes', 'salt': 'bytes', 'dkLen': 'nat', 'count': 'pos' if count is None else ('const', count),
+                                           'prf': PRFOBJ + '|none', 'hmac_hash_module': HASHMOD + '|none'},
+                     requires=req,
+                     # step 1: "If dkLen > (2^32 - 1) * hLen, output 'derived key too long' and stop": here the struct.error of INT(i)
+                     raises={'ValueError': ('iff', both),
+                             'struct.error': ('iff', 'not (%s) and dkLen > (2 ** 32 - 1) * %s' % (both, hl))},
+                     modifies=[],
+                     ensures={'value': 'result == spec.kdf.pbkdf2(%s, %s, %s, password, salt, count, dkLen)' % (kind, fid, hl),
+                              'len': 'len(result) == dkLen'},
+                     loops={0: {'invariant': inv(okind, ofid, ohl)}, 1: {'invariant': inv(okind, ofid, ohl)}},
+                     lemmas={'exit': {'lo': '(i - 1) * %s >= dkLen' % hl, 'hi': 'i >= 2 ==> (i - 2) * %s < dkLen' % hl,
+                                      'blocks': 'spec.kdf.ceil_div(dkLen, %s) == i - 1' % hl}}))
+    # ---------------------------------------------------------------- SP 800-108r1 4.1, KDF in counter mode (r = 32)
+    # K(i) = PRF(K_IN, [i]_4 || Label || 0x00 || Context || [L]_4), L in BITS; result = leftmost L bits of K(1) || K(2) || ...
+    # Domain of the fixed-length encodings: L < 2**32 bits (beyond it long_to_bytes(L, 4) silently grows to 8 bytes: see the notes
+    # at the end of this file).  The library refuses when the counter WOULD overflow after the block just produced, i.e. it
+    # supports n = ceil(L / h) <= 2**32 - 2 blocks, one less than the standard's upper bound n <= 2**r - 1.
+    nk = num_keys
+    hl8 = 'prf.g_len'
+    lbits = 'key_len * %d * 8' % nk
+    stream8 = 'spec.kdf.sp108_stream(prf.g_id, master, label, context, %s, spec.kdf.ceil_div(key_len * %d, %s))' % (lbits, nk, hl8)
+    if nk == 1:
+        ens = {'value': 'result == %s[:key_len]' % stream8, 'len': 'len(result) == key_len'}
+    else:
+        ens = {'count': 'len(result) == %d' % nk}
+        for i in range(nk):
+            ens['key%d' % i] = 'result[%d] == %s[%d * key_len:%d * key_len]' % (i, stream8, i, i + 1)
+    reg.add(Contract(K + 'SP800_108_Counter',
+                     params={'master': 'bytes', 'key_len': 'nat' if nk == 1 else 'pos', 'prf': PRFOBJ,
+                             'num_keys': ('const', nk) if nk != 1 else "none|const:1", 'label': 'bytes', 'context': 'bytes'},
+                     requires=['prf.g_kind == 1', '%s < 2 ** 32' % lbits],
+                     raises={'ValueError': ('iff', 'bytes(1) in context or spec.kdf.ceil_div(key_len * %d, %s) >= 2 ** 32 - 1' % (nk, hl8))},
+                     modifies=[], ensures=ens,
+                     loops={0: {'invariant': ['1 <= i', 'i <= 2 ** 32 - 1',
+                                              'dk == spec.kdf.sp108_stream(prf.g_id, master, label, context, %s, i - 1)' % lbits,
+                                              'len(dk) == (i - 1) * %s' % hl8, 'i >= 2 ==> len(dk) - %s < output_len' % hl8,
+                                              '(2 ** 32 - 1 - i) * %s >= 0' % hl8]}},
+                     lemmas={'exit': {'blocks': 'spec.kdf.ceil_div(key_len * %d, %s) == i - 1' % (nk, hl8)}}))
+    return reg
+
+
+def registry(pbkdf2=None, num_keys=1, count=None):
     reg = base_registry()
     add_hash_natives(reg)
     add_hkdf(reg)
+    add_prf_natives(reg)
+    add_kdfs(reg, pbkdf2, num_keys, count)
     return reg
 
 
